@@ -55,6 +55,7 @@ func c07Rules(c *Ctx) {
 		c07R2(env, ml)
 	}
 	c07R3(env)
+	c07R3ErrChecked(env) // c07b.go
 	c07R4(env)
 }
 
